@@ -10,9 +10,13 @@ VERIF = os.path.dirname(os.path.dirname(os.path.abspath(__file__)))
 sys.path.insert(0, os.path.dirname(os.path.abspath(__file__)))
 import pipelines  # noqa: E402
 
+# properties whose checks are finished and claimed (a pipeline module may exist before its check is claimed)
+CLAIMED = ["C01", "C02", "C03", "C04", "C05", "C06", "C07", "C10", "C14", "C17", "C19", "C20"]
+REASONS = {}    # property -> reason, for properties that are deliberately not claimed
+
 CHECKS = {}
 for _m in pipelines.load_all():
-    CHECKS.update(getattr(_m, "CHECKS", {}))
+    CHECKS.update({k: v for k, v in getattr(_m, "CHECKS", {}).items() if k in CLAIMED})
 
 ALL = [json.loads(l)["id"] for l in open(os.path.join(VERIF, "properties.jsonl"))]
 
@@ -46,7 +50,7 @@ def main():
                      "kind_free_text": "TLC (TLA+ specs in spec/) for model checking, case generation and trace validation; Go harness (harness/cmd/vh) replays generated behaviours on / records traces from the real code"}],
         "checks": checks,
         "notes": "See DESIGN.md. Exit 2 of a check = not a verdict (infrastructure). known_findings.json lists repaired defects (fixed:) and any recorded findings.",
-        "not_applicable": [{"property_id": p, "reason": "check under construction in this session (not yet claimed)"} for p in ALL if p not in CHECKS],
+        "not_applicable": [{"property_id": p, "reason": REASONS.get(p, "check under construction (not yet claimed); see DESIGN.md section 7 for the planned decision procedure")} for p in ALL if p not in CHECKS],
     }
     with open(os.path.join(VERIF, "MANIFEST.json"), "w") as f:
         json.dump(m, f, indent=1)
